@@ -66,8 +66,15 @@ TRANSLATED = [
     'pyramid/config/tweens.py:TweensConfiguratorMixin._add_tween',
     'pyramid/config/tweens.py:TweensConfiguratorMixin._add_tween.register',
     'pyramid/config/tweens.py:TweensConfiguratorMixin.add_tween',
+    'pyramid/config/predicates.py:PredicateList.add',
+    'pyramid/config/predicates.py:PredicateConfiguratorMixin._add_predicate',
+    'pyramid/config/predicates.py:PredicateConfiguratorMixin._add_predicate.register',
+    'pyramid/config/views.py:ViewsConfiguratorMixin.add_view_predicate',
+    'pyramid/config/routes.py:RoutesConfiguratorMixin.add_route_predicate',
+    'pyramid/config/adapters.py:AdaptersConfiguratorMixin.add_subscriber_predicate',
 ]
-GEN_NAMES = ['gen_deriver_args', 'gen_add_tween', 'gen_add_tween_directive']
+GEN_NAMES = ['gen_deriver_args', 'gen_add_tween', 'gen_add_tween_directive', 'gen_pl_add', 'gen_add_predicate',
+             'gen_pred_directive_view', 'gen_pred_directive_route', 'gen_pred_directive_subscriber']
 
 # ConfigurationError messages -> the small codes of the model / harness (by literal fragment)
 MESSAGES = {
@@ -545,6 +552,92 @@ def _imports_const(tree, module, names):
         raise Problem('constants %s are not imported from %s' % (sorted(set(names) - got), module))
 
 
+def pass_chain(fn, types, sigs, callee_src, callee_params, want, plumb_extra=(), need_register=False, lead=()):
+    """A function that only PASSES ITS ARGUMENTS ON (PredicateList.add, _add_predicate, add_*_predicate): plumbing
+    statements (hashed), optionally a register() closure run by self.action, and exactly one call `callee_src(..)` whose
+    arguments are bound to the callee's parameter names.  -> (tuple term in the order `want`, plumbing texts).
+    lead: (statement source prefix, parameter) pairs for statements like `predlist = self.get_predlist(type)` whose
+    single argument must be that parameter and is emitted first."""
+    d = Dir(fn, 'pass', {}, sigs, types)
+    env = dict(d.env)
+    plumb, out_lead = [], []
+    register = None
+
+    def is_doc(st):
+        return isinstance(st, ast.Expr) and isinstance(st.value, ast.Constant) and isinstance(st.value.value, str)
+
+    def find_call(stmts, env):
+        term = None
+        for st in stmts:
+            if is_doc(st):
+                continue
+            if isinstance(st, ast.Expr) and isinstance(st.value, ast.Call) and u(st.value.func) == callee_src:
+                if term is not None:
+                    raise Problem('%s: two calls of %s' % (fn.name, callee_src))
+                got = _bind(st.value, callee_params, callee_src)
+                if set(got) != set(want):
+                    raise Problem('%s: %s called with %r' % (fn.name, callee_src, sorted(got)))
+                parts = []
+                for k in want:
+                    t, ty = d.expr(got[k], env)
+                    parts.append((t, ty))
+                term = parts
+                continue
+            hit = False
+            for prefix, param in lead:
+                if isinstance(st, ast.Assign) and u(st).startswith(prefix) and isinstance(st.value, ast.Call) \
+                        and len(st.value.args) == 1 and not st.value.keywords and isinstance(st.value.args[0], ast.Name) \
+                        and st.value.args[0].id == param and param in env:
+                    out_lead.append(env[param])
+                    hit = True
+            if hit:
+                continue
+            if d.is_plumbing(st, env) or any(u(st).startswith(x) for x in plumb_extra):
+                plumb.append(u(st))
+                continue
+            if isinstance(st, ast.Assign) and len(st.targets) == 1 and isinstance(st.targets[0], ast.Name) \
+                    and isinstance(st.value, ast.Call) and u(st.value.func) == '%s.maybe_dotted' % d.selfname \
+                    and len(st.value.args) == 1 and u(st.value.args[0]) == st.targets[0].id \
+                    and env.get(st.targets[0].id, (None, None))[1] == 'val':
+                continue                                   # x = self.maybe_dotted(x) on an object: itself
+            raise Problem('%s: statement outside the subset: %s' % (fn.name, u(st).split('\n')[0]))
+        return term
+
+    body = list(fn.body)
+    if need_register:
+        regs = [st for st in body if isinstance(st, ast.FunctionDef)]
+        if len(regs) != 1 or regs[0].name != 'register' or regs[0].args.args or regs[0].decorator_list:
+            raise Problem('%s: expected one closure register()' % fn.name)
+        register = regs[0]
+        i = body.index(register)
+        last = body[-1]
+        if not (isinstance(last, ast.Expr) and isinstance(last.value, ast.Call) and u(last.value.func) == '%s.action' % d.selfname
+                and len(last.value.args) >= 2 and u(last.value.args[1]) == 'register'):
+            raise Problem('%s: the last statement does not run register through self.action' % fn.name)
+        reads = {n.id for n in ast.walk(register) if isinstance(n, ast.Name)} & set(env)
+        for later in body[i + 1:]:
+            for n in ast.walk(later):
+                if isinstance(n, (ast.Assign, ast.AugAssign, ast.For, ast.NamedExpr, ast.AnnAssign)):
+                    for t in (n.targets if isinstance(n, ast.Assign) else [n.target]):
+                        for m in ast.walk(t):
+                            if isinstance(m, ast.Name) and m.id in reads:
+                                raise Problem('%s: %s is re-bound after register() was defined' % (fn.name, m.id))
+        pre = find_call(body[:i] + body[i + 1:-1], env)
+        if pre is not None:
+            raise Problem('%s: %s called outside register()' % (fn.name, callee_src))
+        plumb.append(u(last))
+        term = find_call(register.body, env)
+    else:
+        if any(isinstance(st, ast.FunctionDef) for st in body):
+            raise Problem('%s: unexpected closure' % fn.name)
+        term = find_call(body, env)
+    if term is None:
+        raise Problem('%s: no call of %s' % (fn.name, callee_src))
+    if len(out_lead) != len(lead):
+        raise Problem('%s: lead statements %r not found exactly once' % (fn.name, [x for x, _ in lead]))
+    return out_lead + term, plumb
+
+
 def translate_tree(src):
     problems, summary = [], {}
     try:
@@ -600,6 +693,52 @@ def translate_tree(src):
         body = d.block(fn.body, d.env)
         out.append('Definition gen_add_tween_directive (v_tween_factory : node) (resolved : N) (v_under : hint) '
                    '(v_over : hint) : N + tw_reg :=\n%s.\n' % body)
+        # ---- predicate directives: add_{view,route,subscriber}_predicate -> _add_predicate -> PredicateList.add -> sorter.add
+        pr = parse('pyramid/config/predicates.py')
+        H4 = {'name': 'node', 'factory': 'val', 'weighs_more_than': 'hint', 'weighs_less_than': 'hint'}
+        SIG4 = '(v_name : node) (v_factory : N) (v_weighs_more_than : hint) (v_weighs_less_than : hint)'
+
+        def tuple_term(parts, tys):
+            if [t for _, t in parts] != tys:
+                raise Problem('argument types %r where %r are expected' % ([t for _, t in parts], tys))
+            return '(%s)' % ', '.join(x for x, _ in parts)
+        fn = _find(pr, 'PredicateList.add')
+        if _params(fn) != ['name', 'factory', 'weighs_more_than', 'weighs_less_than'] or fn.decorator_list:
+            raise Problem('PredicateList.add signature')
+        _defaults_none(fn, ['weighs_more_than', 'weighs_less_than'])
+        parts, pl = pass_chain(fn, H4, sigs, 'self.sorter.add', sigs['sorter.add'], ['name', 'val', 'after', 'before'],
+                               plumb_extra=('self.last_added = ',))
+        out.append('Definition gen_pl_add %s : node * N * hint * hint :=\n%s.\n'
+                   % (SIG4, tuple_term(parts, ['node', 'val', 'hint', 'hint'])))
+        plumb_all = ['PredicateList.add: ' + x for x in pl]
+        fn = _find(pr, 'PredicateConfiguratorMixin._add_predicate')
+        ap_params = _params(fn)
+        if ap_params != ['type', 'name', 'factory', 'weighs_more_than', 'weighs_less_than'] or fn.decorator_list:
+            raise Problem('_add_predicate signature %r' % ap_params)
+        _defaults_none(fn, ['weighs_more_than', 'weighs_less_than'])
+        parts, pl = pass_chain(fn, dict(H4, type='node'), sigs, 'predlist.add', _params(_find(pr, 'PredicateList.add')),
+                               ['name', 'factory', 'weighs_more_than', 'weighs_less_than'], need_register=True,
+                               lead=(('predlist = self.get_predlist(', 'type'),))
+        out.append('Definition gen_add_predicate (v_type : node) %s : node * node * N * hint * hint :=\n%s.\n'
+                   % (SIG4, tuple_term(parts, ['node', 'node', 'val', 'hint', 'hint'])))
+        plumb_all += ['_add_predicate: ' + x for x in pl]
+        for kind, tree, qual in (('view', vw, 'ViewsConfiguratorMixin.add_view_predicate'),
+                                 ('route', parse('pyramid/config/routes.py'), 'RoutesConfiguratorMixin.add_route_predicate'),
+                                 ('subscriber', parse('pyramid/config/adapters.py'),
+                                  'AdaptersConfiguratorMixin.add_subscriber_predicate')):
+            fn = _find(tree, qual)
+            if _params(fn) != ['name', 'factory', 'weighs_more_than', 'weighs_less_than']:
+                raise Problem('%s signature' % qual)
+            _defaults_none(fn, ['weighs_more_than', 'weighs_less_than'])
+            if [u(x) for x in fn.decorator_list] != ['action_method']:
+                raise Problem('%s decorators' % qual)
+            parts, pl = pass_chain(fn, H4, sigs, 'self._add_predicate', ap_params, ap_params)
+            out.append('Definition gen_pred_directive_%s %s : node * node * N * hint * hint :=\n%s.\n'
+                       % (kind, SIG4, tuple_term(parts, ['node', 'node', 'val', 'hint', 'hint'])))
+            plumb_all += ['%s: %s' % (qual, x) for x in pl]
+        import hashlib
+        masked['pyramid/config/predicates.py:predicate-directive-chain#untranslated'] = \
+            hashlib.sha1('\n'.join(plumb_all).encode()).hexdigest()[:16]
         summary['masked_pins'] = masked
         for f in (_find(vw, 'ViewsConfiguratorMixin.add_view_deriver'), _find(tw, 'TweensConfiguratorMixin._add_tween'),
                   _find(tw, 'TweensConfiguratorMixin.add_tween')):
